@@ -69,4 +69,131 @@ theorem habEccParse_item (cv : Curve) (x y : Nat) (ca : Bool) (hx : x < 256 ^ cv
   simp only [hl, hl2, hflag', hdrop, ↓reduceIte, List.drop_drop, hx', hy', beDec_beEnc_fit _ _ hx, beDec_beEnc_fit _ _ hy, toBytes_fit _ _ hx,
     toBytes_fit _ _ hy, bind_ok, pure_eq_ok]
 
+/-! ### every item the constructor and `export` accept (any key size of the generated curve table) -/
+
+theorem bind_err {α β} (e : PyErr) (f : α → PyRes β) : ((Except.error e : PyRes α) >>= f) = .error e := rfl
+theorem throw_eq {α} (e : PyErr) : (throw e : PyRes α) = .error e := rfl
+theorem toBytes_nofit (w v : Nat) (h : ¬ v < 256 ^ w) : toBytes w v = .error .other := by simp [toBytes, h]
+
+theorem habCurveName_le (ks : Nat) (nm : String) (h : habCurveName ks = .ok nm) : ks ≤ 775 := by
+  have hall : ∀ r ∈ G.habEccCurveRanges, r.2.1 ≤ 775 := by decide
+  simp only [habCurveName] at h
+  cases hf : G.habEccCurveRanges.find? (fun r => decide (r.1 ≤ ks) && decide (ks ≤ r.2.1)) with
+  | none => rw [hf] at h; cases h
+  | some r =>
+    have hp := List.find?_some hf
+    have hm := List.mem_of_find?_eq_some hf
+    simp only [Bool.and_eq_true, decide_eq_true_eq] at hp
+    exact Nat.le_trans hp.2 (hall r hm)
+
+theorem habKeyType_id (nm : String) (id : Nat) (h : G.habEccKeyType.lookup nm = some id) : id = 0x4B ∨ id = 0x4D ∨ id = 0x4E := by
+  have e : G.habEccKeyType = [("secp256r1", 75), ("secp384r1", 77), ("secp521r1", 78)] := rfl
+  rw [e] at h
+  simp only [List.lookup] at h
+  split at h
+  · injection h with h; exact Or.inl h.symm
+  · split at h
+    · injection h with h; exact Or.inr (Or.inl h.symm)
+    · split at h
+      · injection h with h; exact Or.inr (Or.inr h.symm)
+      · cases h
+
+theorem beEnc2 (v : Nat) : beEnc 2 v = [UInt8.ofNat (v / 256 % 256), UInt8.ofNat (v % 256)] := by simp [beEnc]
+
+theorem be16_bytes (v : Nat) (h : v < 65536) :
+    (UInt8.ofNat (v >>> 8 &&& 255)).toNat <<< 8 + ((UInt8.ofNat (v >>> 0 &&& 255)).toNat <<< 0 + 0) = v := by
+  have e255 : (255 : Nat) = 2 ^ 8 - 1 := rfl
+  simp only [UInt8.toNat_ofNat', e255, Nat.and_two_pow_sub_one_eq_mod, Nat.shiftRight_eq_div_pow, Nat.shiftLeft_eq, Nat.shiftRight_zero,
+    Nat.pow_zero, Nat.mul_one, Nat.add_zero]
+  omega
+
+/-- `SrkItemEcc.parse(SrkItemEcc(key_size, x, y, flag).export() ‖ rest)` gives the item back for EVERY item the constructor and `export`
+    accept - any key size of the generated `get_ecc_curve` table (0..535, 768..775; e.g. 512..519 are exported with the P-256 curve id),
+    both flag values, all coordinates that fit -/
+theorem habEccParse_export_any (it : HabEccItem) (b : Bytes) (h : habEccExport it = .ok b) (rest : Bytes) :
+    habEccParse (b ++ rest) = .ok it := by
+  have g1 : G.habHeaderSize = 4 := rfl
+  have g2 : G.habEccParseFlagIdx = 7 := rfl
+  have g3 : G.habEccParseCurveIdx = 8 := rfl
+  have g4 : G.habEccParseBitsIdx = [(10, 8), (11, 0)] := rfl
+  have g5 : G.habEccParseCoordOff = 12 := rfl
+  have g6 : UInt8.ofNat G.habTagKeyPublic = 0xE1 := by decide
+  have g7 : G.habEccLenExtra = 8 := rfl
+  have hcs : ∀ ks, habParseCoordSize ks = habCoordSize ks := fun _ => rfl
+  obtain ⟨ks, x, y, flag⟩ := it
+  by_cases hf : flag ≠ 0 ∧ flag ≠ 0x80
+  · simp only [habEccExport, if_pos hf, throw_eq, bind_err] at h; cases h
+  by_cases hx : ¬ x < 256 ^ habCoordSize ks
+  · simp only [habEccExport, hf, ↓reduceIte, toBytes_nofit _ _ hx, bind_ok, pure_eq_ok, bind_err] at h; cases h
+  have hx := Classical.not_not.mp hx
+  by_cases hy : ¬ y < 256 ^ habCoordSize ks
+  · simp only [habEccExport, hf, ↓reduceIte, toBytes_fit _ _ hx, toBytes_nofit _ _ hy, bind_ok, pure_eq_ok, bind_err] at h; cases h
+  have hy := Classical.not_not.mp hy
+  simp only [habEccExport, hf, ↓reduceIte, toBytes_fit _ _ hx, toBytes_fit _ _ hy, bind_ok, pure_eq_ok, beEnc_length', g1, g7] at h
+  by_cases hlen : 4 + 8 + habCoordSize ks + habCoordSize ks ≥ 65536
+  · simp only [hlen, ↓reduceIte, throw_eq, bind_err] at h; cases h
+  simp only [hlen, ↓reduceIte, bind_ok, pure_eq_ok] at h
+  cases hnm : habCurveName ks with
+  | error e => rw [hnm] at h; cases h
+  | ok nm =>
+    rw [hnm] at h
+    simp only [bind_ok] at h
+    cases hid : G.habEccKeyType.lookup nm with
+    | none => rw [hid] at h; cases h
+    | some id =>
+      rw [hid] at h
+      simp only [bind_ok, pure_eq_ok] at h
+      have hfields : G.habEccExportFields.map (habEccField flag id ks) =
+          [0, 0, 0, flag >>> 0 &&& 255, id >>> 0 &&& 255, 0, ks >>> 8 &&& 255, ks >>> 0 &&& 255] := rfl
+      rw [hfields] at h
+      split at h
+      · cases h
+      · injection h with h
+        subst h
+        have hks := habCurveName_le ks nm hnm
+        have hidv := habKeyType_id nm id hid
+        have hfl : flag = 0 ∨ flag = 128 := by omega
+        have hL : 4 + 8 + habCoordSize ks + habCoordSize ks < 256 ^ 2 := by
+          have : (256 : Nat) ^ 2 = 65536 := by decide
+          omega
+        have hbd := beDec_beEnc_fit 2 _ hL
+        obtain ⟨h0, h1, e01⟩ : ∃ h0 h1 : UInt8, beEnc 2 (4 + 8 + habCoordSize ks + habCoordSize ks) = [h0, h1] :=
+          ⟨_, _, beEnc2 _⟩
+        rw [e01] at hbd ⊢
+        have hlen4 : ¬ beDec [h0, h1] < 4 := by omega
+        have hflag : (UInt8.ofNat (flag >>> 0 &&& 255)).toNat = flag := by rcases hfl with rfl | rfl <;> decide
+        have hcurve : (G.habEccKeyType.any fun p => p.2 == (UInt8.ofNat (id >>> 0 &&& 255)).toNat) = true := by
+          rcases hidv with rfl | rfl | rfl <;> decide
+        have hk := be16_bytes ks (by omega)
+        have e2 : UInt8.ofNat G.habAlgEcdsa = 0x27 := by decide
+        have hd : [UInt8.ofNat G.habTagKeyPublic] ++ [h0, h1] ++ [UInt8.ofNat G.habAlgEcdsa] ++
+            List.map UInt8.ofNat [0, 0, 0, flag >>> 0 &&& 255, id >>> 0 &&& 255, 0, ks >>> 8 &&& 255, ks >>> 0 &&& 255] ++
+            beEnc (habCoordSize ks) x ++ beEnc (habCoordSize ks) y ++ rest =
+            0xE1 :: h0 :: h1 :: 0x27 :: UInt8.ofNat 0 :: UInt8.ofNat 0 :: UInt8.ofNat 0 :: UInt8.ofNat (flag >>> 0 &&& 255) ::
+              UInt8.ofNat (id >>> 0 &&& 255) :: UInt8.ofNat 0 :: UInt8.ofNat (ks >>> 8 &&& 255) :: UInt8.ofNat (ks >>> 0 &&& 255) ::
+              (beEnc (habCoordSize ks) x ++ (beEnc (habCoordSize ks) y ++ rest)) := by
+          simp only [g6, e2, List.map_cons, List.map_nil, List.cons_append, List.nil_append, List.append_assoc]
+        rw [hd]
+        have hx' : ((beEnc (habCoordSize ks) x ++ (beEnc (habCoordSize ks) y ++ rest))).take (habCoordSize ks) = beEnc (habCoordSize ks) x :=
+          List.take_left' (beEnc_length' _ _)
+        have hy' : ((beEnc (habCoordSize ks) x ++ (beEnc (habCoordSize ks) y ++ rest)).drop (habCoordSize ks)).take (habCoordSize ks) =
+            beEnc (habCoordSize ks) y := by
+          rw [List.drop_left' (beEnc_length' _ _)]; exact List.take_left' (beEnc_length' _ _)
+        have hflag' : ¬ (¬ flag = 0 ∧ ¬ flag = 128) := by omega
+        have hdrop : ∀ (n : Nat) (a1 a2 a3 a4 a5 a6 a7 a8 a9 a10 a11 a12 : UInt8) (l : Bytes),
+            List.drop (12 + n) (a1 :: a2 :: a3 :: a4 :: a5 :: a6 :: a7 :: a8 :: a9 :: a10 :: a11 :: a12 :: l) = List.drop n l := by
+          intro n a1 a2 a3 a4 a5 a6 a7 a8 a9 a10 a11 a12 l
+          rw [Nat.add_comm]; rfl
+        simp only [habEccParse, g1, g2, g3, g4, g5, g6, List.length_cons, List.headD_cons, List.drop_succ_cons, List.drop_zero,
+          List.take_succ_cons, List.take_zero, hlen4, List.map_cons, List.map_nil, List.foldl_cons, List.foldl_nil,
+          List.getD_cons_succ, List.getD_cons_zero, List.sum_cons, List.sum_nil, hk, hcurve, hcs, hflag,
+          bind_ok, pure_eq_ok, ↓reduceIte, Bool.not_true, Bool.false_eq_true, ne_eq, not_true_eq_false]
+        have hl : ¬ (beEnc (habCoordSize ks) x ++ (beEnc (habCoordSize ks) y ++ rest)).length + 1 + 1 + 1 + 1 + 1 + 1 + 1 + 1 + 1 + 1 + 1 + 1 < 4 := by omega
+        have hl2 : ¬ (beEnc (habCoordSize ks) x ++ (beEnc (habCoordSize ks) y ++ rest)).length + 1 + 1 + 1 + 1 + 1 + 1 + 1 + 1 + 1 + 1 + 1 + 1 <
+            max (max (max 7 8) 10) 11 + 1 := by
+          have : max (max (max 7 8) 10) 11 + 1 = 12 := by decide
+          omega
+        simp only [hl, hl2, hflag', hdrop, ↓reduceIte, hx', hy', beDec_beEnc_fit _ _ hx, beDec_beEnc_fit _ _ hy, toBytes_fit _ _ hx,
+          toBytes_fit _ _ hy, bind_ok, pure_eq_ok]
+
 end SpsdkVerif.Rkht
